@@ -1872,6 +1872,12 @@ class Summariser:
             n = st.tick(("sub", meth, base))
             a["res"] = ("subres", meth, base, n)
             self.emit(st, "SUB", a, node)
+            # a sub-construct may lead back into this very object (a recursive format): what this call stored in attributes of self before the
+            # sub-call may have been overwritten by the inner invocation when it is read afterwards
+            if meth in ("_parse", "_parsereport", "_build") and os.environ.get("SA_NO_REENTRY") != "1":
+                for key_ in list(st.heap):
+                    if key_[0] == ("param", "self") and not (isinstance(st.heap[key_], tuple) and st.heap[key_][:1] == ("reentered",)):
+                        st.heap[key_] = ("reentered", key_[1], st.tick("reenter"))
             return a["res"]
         if base in (("module", "io"), ("free", "io")) and meth == "BytesIO":
             t = ("newstream", "BytesIO", st.tick("newstream"), args, kws)
